@@ -76,7 +76,8 @@ def main() -> int:
             print(f"{sid}: REJECTED - demonstration passes with the change applied")
             return 3
         if not args.skip_suite:
-            r = sh("/venv/bin/python -m pytest -q -p no:cacheprovider --timeout=900 -x --ignore=seeded_demo", cwd=wt, timeout=1800)
+            # own network namespace: the suite binds ports 51842+ and collides with other concurrent test runs otherwise
+            r = sh("unshare -n sh -c 'ip link set lo up; /venv/bin/python -m pytest -q -p no:cacheprovider --timeout=900 -x --ignore=seeded_demo'", cwd=wt, timeout=1800)
             tail = (r.stdout.strip().splitlines() or [""])[-1]
             meta["ran"].append({"cmd": "(patched) /venv/bin/python -m pytest -q -p no:cacheprovider --timeout=900 -x", "rc": r.returncode, "tail": tail})
             if r.returncode != 0:
